@@ -215,6 +215,10 @@ def crash_job(job):
             cstep_disk = cfg["current"]["cstep"]
         except Exception:  # noqa: BLE001
             cfg, cstep_disk = None, None
+        # every step before the one that was cut short has left its restart file: the file on disk is the one of the
+        # previous step or (crash after the replace) of this step
+        if sc.get("_cstep0") is not None and cstep_disk is not None and (cstep_disk - sc["_cstep0"]) not in (target - 1, target):
+            rec.violation(f"C08:restart-file-older-than-the-last-completed-step@{where}", f"crash in step {sc['_cstep0'] + target} of the run, restart file is of step {cstep_disk}", replay)
         # the record on disk lists exactly the jobs that were in flight when that file was written
         if locked_on_disk is not None and sc.get("_inflight") and sc.get("_cstep0") is not None and cstep_disk is not None:
             exp = sc["_inflight"].get(str(cstep_disk - sc["_cstep0"]))
